@@ -511,8 +511,22 @@ type obs struct {
 	Err      string
 }
 
+func tleChecksum(l string) string {
+	sum := 0
+	for _, ch := range l {
+		if ch >= '0' && ch <= '9' {
+			sum += int(ch - '0')
+		} else if ch == '-' {
+			sum++
+		}
+	}
+	return l + strconv.Itoa(sum%10)
+}
+
 func tleBody(cid string) []byte {
-	return []byte(cid + "\n1 25544U 98067A   24001.50000000  .00016717  00000-0  10270-3 0  9005\n2 25544  51.6400 208.9163 0006703  69.9862  25.2906 15.49560000    13\n")
+	l1 := tleChecksum("1 25544U 98067A   24001.50000000  .00016717  00000-0  10270-3 0  900")
+	l2 := tleChecksum("2 25544  51.6400 208.9163 0006703  69.9862  25.2906 15.49560000    1")
+	return []byte(cid + "\n" + l1 + "\n" + l2 + "\n")
 }
 
 // run executes the case on the chassis and returns what every node did.
@@ -591,8 +605,12 @@ func (ch *chassis) run(c caseCfg) obs {
 	case kTLE:
 		path, ct = "/api/v1/write/tle", "text/plain"
 		body = tleBody(cid)
-	case kQuery, kQueryMsgpack, kQueryArrow:
-		path = map[int]string{kQuery: "/api/v1/query", kQueryMsgpack: "/api/v1/query/msgpack", kQueryArrow: "/api/v1/query/arrow"}[c.Kind]
+	case kQuery:
+		// executed by DuckDB on whichever node serves it; that node's query registry logs the statement
+		path, ct = "/api/v1/query", "application/json"
+		body, _ = json.Marshal(map[string]string{"sql": fmt.Sprintf("SELECT %d AS cid, 0 AS nrows", cidNum)})
+	case kQueryMsgpack, kQueryArrow:
+		path = map[int]string{kQueryMsgpack: "/api/v1/query/msgpack", kQueryArrow: "/api/v1/query/arrow"}[c.Kind]
 		ct = "application/json"
 		body, _ = json.Marshal(map[string]string{"sql": fmt.Sprintf("SELECT %d AS cid, count(*) AS nrows FROM %s", cidNum, markerMeas)})
 	case kQueryShow:
@@ -708,6 +726,9 @@ func (ch *chassis) run(c caseCfg) obs {
 			if json.Unmarshal(rb, &r) == nil && r.Success {
 				gotCid, nrows, ok = cidNum, len(r.Data), true
 			}
+		}
+		if ok && c.Kind == kQuery {
+			o.CidEcho = gotCid == cidNum
 		}
 		if ok && nrows >= 1 && nrows <= maxNodes {
 			o.ExecNode = nrows - 1
